@@ -29,6 +29,11 @@ THRESHOLDS = {
 
 def gen_cases(tier, seed):
     yield from stream.gen_cases(tier, seed, PLAN[tier]["grammars"], profiles=("general", "dep"), expansion_share=0.1)
+    # grammars with a part that cannot be completed (an abstract class none of whose productions is supplied): the rest of
+    # the language is still usable, and no program may contain an instance of such a class
+    for case in stream.gen_cases(tier, seed + 41, max(10, PLAN[tier]["grammars"] // 5), profiles=("unproductive-part",), expansion_share=0.0):
+        case["unproductive_part"] = True
+        yield case
 
 
 def _kinds(model, t, rec, seen):
